@@ -63,6 +63,33 @@ def _literal(node):
     return None
 
 
+def _discrete_valued(fi, e, depth=0):
+    """the expression only takes values from {-1, 0, 1} / booleans (np.sign, comparisons): a closeness test on it is exact"""
+    from .astutil import inline_single_defs
+    if depth > 4:
+        return False
+    if isinstance(e, ast.Call) and (call_name(e) or "") in ("np.sign", "numpy.sign", "np.signbit", "np.isnan", "np.isfinite"):
+        return True
+    if isinstance(e, ast.Compare):
+        return True
+    if isinstance(e, ast.Call) and (call_name(e) or "") in ("np.diff", "np.array", "np.asarray") and e.args:
+        return False if (call_name(e) or "") == "np.diff" else _discrete_valued(fi, e.args[0], depth + 1)
+    if isinstance(e, ast.Name):
+        # a parameter of a nested function: look at what its single call site passes
+        for fn in ast.walk(fi.node):
+            if isinstance(fn, ast.FunctionDef) and fn is not fi.node and e.id in [a.arg for a in fn.args.args] and \
+                    any(n is e for n in ast.walk(fn)):
+                pos = [a.arg for a in fn.args.args].index(e.id)
+                sites = [c for c in ast.walk(fi.node) if isinstance(c, ast.Call) and isinstance(c.func, ast.Name) and c.func.id == fn.name]
+                if sites and all(len(c.args) > pos and _discrete_valued(fi, c.args[pos], depth + 1) for c in sites):
+                    return True
+                return False
+        d = inline_single_defs(fi.node, e)
+        if d is not e and not (isinstance(d, ast.Name) and d.id == e.id):
+            return _discrete_valued(fi, d, depth + 1)
+    return False
+
+
 def _config_close(node):
     if isinstance(node, ast.Call) and node.args:
         for a in node.args[:2]:
@@ -199,7 +226,7 @@ def run(ctx, prop):
     n_acc = 0
     for fi in funcs:
         for node, kind, text in tolerance.absolute_tolerances(fi.node):
-            if kind == "close" and _config_close(node):
+            if kind == "close" and (_config_close(node) or (node.args and _discrete_valued(fi, node.args[0]))):
                 n_acc += 1
                 continue
             lit = _literal(node)
